@@ -120,13 +120,21 @@ def main():
       elif kind in ("avgpool", "gap"):
         avq = pick(rng, ["quantized_bits(8,0,1)", "quantized_bits(4,0,1)", None])
         desc.update(avq=avq)
-        x = rng.normal(0, 1, size=(2, 8, 8, 3)).astype(np.float32)
+        hh, ww = int(rng.integers(5, 10)), int(rng.integers(5, 10))
+        x = rng.normal(0, 1, size=(2, hh, ww, 3)).astype(np.float32)
         if kind == "avgpool":
-          ps = int(rng.integers(1, 4))
-          desc.update(pool=ps)
-          ql = qkeras.QAveragePooling2D(pool_size=ps, average_quantizer=avq, activation=aq)
-          area = ps * ps
-          base = L.AveragePooling2D(pool_size=ps)
+          # square (int) and rectangular (tuple) windows, explicit strides, both paddings
+          if rng.integers(0, 2):
+            ps = int(rng.integers(1, 4))
+            area = ps * ps
+          else:
+            ps = (int(rng.integers(1, 4)), int(rng.integers(1, 5)))
+            area = ps[0] * ps[1]
+          st = None if rng.integers(0, 2) else (int(rng.integers(1, 3)), int(rng.integers(1, 3)))
+          pp = pick(rng, ["valid", "valid", "same"]) if avq is None else "valid"
+          desc.update(pool=ps, strides=st, padding=pp, hw=(hh, ww))
+          ql = qkeras.QAveragePooling2D(pool_size=ps, strides=st, padding=pp, average_quantizer=avq, activation=aq)
+          base = L.AveragePooling2D(pool_size=ps, strides=st, padding=pp)
           y = ql(tf.constant(x)).numpy()
           if avq:
             want = base(tf.constant(x) * area) * tf.cast(get_quantizer(avq)(1.0 / area), tf.float32)
@@ -135,7 +143,8 @@ def main():
         else:
           ql = qkeras.QGlobalAveragePooling2D(average_quantizer=avq, activation=aq)
           y = ql(tf.constant(x)).numpy()
-          area = 64
+          area = hh * ww
+          desc.update(hw=(hh, ww))
           if avq:
             want = tf.reduce_sum(tf.constant(x), axis=[1, 2]) * tf.cast(get_quantizer(avq)(1.0 / area), tf.float32)
           else:
